@@ -269,6 +269,14 @@ Response(r, emptyctl, expl) ==
 (* SearchResultReference ::= [APPLICATION 19] SEQUENCE SIZE (1..MAX) OF uri URI  (RFC 4511 4.5.3) *)
 RefMsgTree(id, uris) == MsgTree(id, Cons(1, 19, [i \in 1..Len(uris) |-> TOct(uris[i])]), <<>>)
 
+(* A resultCode the caller's u32 cannot hold - no content octets at all, or more than four significant ones: such a response
+   cannot be reported faithfully and therefore must not be reported at all (least of all as code 0, success).  The reader
+   below refuses it like any other malformed LDAPResult. *)
+RECURSIVE StripZeros(_)
+StripZeros(o) == IF Len(o) > 1 /\ o[1] = 0 THEN StripZeros(Tail(o)) ELSE o
+RcUnreportable(o) == o = <<>> \/ Len(StripZeros(o)) > 4
+RawRcResponse(kind, id, rcoct) == MsgTree(id, Cons(1, kind, <<Prim(0, 10, rcoct), TOct(<<>>), TOct(<<>>)>>), <<>>)
+
 (* reader, independent of Response *)
 DecodeResponse(bytes) ==
   LET d == DecOne(bytes) IN
